@@ -22,7 +22,7 @@ func init() { Register(c12{}) }
 
 func (c12) Name() string { return "c12" }
 func (c12) Rule() string {
-	return "workspaces of 2..5 journal-profile files (shared payees/accounts/commodities/tags on purpose, account and commodity declarations, relative/./absolute/glob includes, cycles allowed) on the simulated disk; Workspace.Initialize, then 1..8 UpdateFile(path,newText) where newText is another journal-profile text that may change the include list (files become reachable/unreachable). Class S writes the text to the disk first (saved edit); class U passes unsaved text for files that are members. Optional sticky fault: a file that becomes reachable is missing/unreadable when first read; optional permuted map-iteration order in the workspace code. After EVERY step a fresh Workspace+Loader is initialised on a clone of the disk overlaid with the unsaved member texts and the complete aggregated view is compared. Non-trivial: >= 1 update changed the member set or touched a file that shares a payee/account with another member. Distinct: hash of (include shapes, update sequence kinds)."
+	return "workspaces of 2..5 journal-profile files (shared payees/accounts/commodities/tags on purpose, account and commodity declarations, relative/./absolute/glob includes, cycles allowed) on the simulated disk; Workspace.Initialize, then 1..8 UpdateFile(path,newText) where newText is another journal-profile text that may change the include list (files become reachable/unreachable). Class S writes the text to the disk first (saved edit); class U passes unsaved text for files that are members. Optional sticky fault: a file that becomes reachable is missing/unreadable when first read; optional permuted map-iteration order in the workspace code. In 30% of the steps the update runs as a scheduled task interleaved, at every lock and disk call, with 1..2 tasks reading the derived views (declared accounts/commodities, commodity formats, index snapshot). After EVERY step a fresh Workspace+Loader is initialised on a clone of the disk overlaid with the unsaved member texts and the complete aggregated view is compared. Non-trivial: >= 1 update changed the member set or touched a file that shares a payee/account with another member. Distinct: hash of (include shapes, update sequence kinds)."
 }
 func (c12) Enumerated(string) int { return 0 }
 func (c12) Components() ([]string, []string) {
@@ -352,7 +352,58 @@ func (c12) Run(ctx *RunCtx) {
 			what = "unsaved edit of " + p
 		}
 		ctx.T("step %d: %s; UpdateFile(%s):\n%s", step, what, p, indent(text))
-		guard(func() { sut.UpdateFile(p, text) })
+		if c.Pct("concurrent-readers", 30) {
+			// the update runs as a task, interleaved at every lock and disk call
+			// with tasks that read the aggregated view (what background analyses
+			// and requests do): a reader must never leave a stale derived cache behind
+			sched := simrt.NewSched(c, ctx.Log)
+			sched.MapOrder = simrt.DirectMapOrder
+			simrt.Activate(sched)
+			nr := 1 + c.Choose("readers", 2)
+			for r := 0; r < nr; r++ {
+				simrt.Go("c12:reader", func() {
+					sut.GetDeclaredAccounts()
+					sut.GetDeclaredCommodities()
+					sut.GetCommodityFormats()
+					sut.IndexSnapshot()
+				})
+			}
+			// sometimes an intermediate keystroke precedes the text of this step, so
+			// that a reader can miss the cache between two updates
+			pre := ""
+			if c.Pct("two-updates", 60) {
+				// same include lines as the final text (membership changes once, so
+				// the bookkeeping of unsaved member texts stays exact), other content
+				pre = text + fmt.Sprintf("account zz:typed%d\ncommodity 1.000,00 ZZ%d\n\n2024-05-05 keystroke%d  ; typed:%d\n    zz:typed%d  1 ZZ%d\n    assets:cash\n", step, step, step, step, step, step)
+				ctx.T("  (preceded by an intermediate UpdateFile(%s):\n%s)", p, indent(pre))
+			}
+			simrt.Go("c12:update", func() {
+				if pre != "" {
+					sut.UpdateFile(p, pre)
+				}
+				sut.UpdateFile(p, text)
+			})
+			runTasks(c, sched, 20000)
+			simrt.Activate(nil)
+			stuck := ""
+			for _, t := range sched.Tasks {
+				if t.State != simrt.StDone {
+					stuck = t.String() + "@" + t.Site
+				}
+			}
+			ctx.Stats.Inc("probe:update-interleaved-with-readers")
+			ctx.T("  (update interleaved with %d reader task(s))", nr)
+			if stuck != "" {
+				ctx.Fail(&Violation{Property: "C12", Oracle: "fresh-workspace", Class: "stuck", Msg: fmt.Sprintf("step %d (%s): %s never finished (deadlock between an update and readers of the view)", step, what, stuck)})
+				ctx.NonTrivial = true
+				return
+			}
+			if len(sched.Panics) > 0 {
+				crashed = sched.Panics[0].Value
+			}
+		} else {
+			guard(func() { sut.UpdateFile(p, text) })
+		}
 		sig = append(sig, fmt.Sprintf("%d%v%v", i, saved, member))
 		after := viewOf(sut)
 		if !reflect.DeepEqual(before.Members, after.Members) {
